@@ -12,8 +12,22 @@ reader of the dialect (`parse_dialect`; generation asserts parse_dialect(render(
 and replays are judged the same way.
 """
 import os
-from lib.core import Case
+from lib.core import Case, GenError, write_if_changed, LEAN
 from lib import cbuild
+from gen import xml_gen, cfun
+
+
+def regen(ctx):
+    """Gen/XmlConsts.lean: limits, array sizes and list capacities as written, literal sets, and the depth test / loop
+    guard / max_depth defaulting / quote predicate of xml_parser.c, re-derived from /repo's current source
+    (gen/xml_gen.py); Model/Xml.lean computes with these values and Proofs/C12/GenBridge.lean re-proves what the
+    theorems need of them (a 256-byte name fits both compare buffers, name + 10 attributes fit the split list, ...)"""
+    try:
+        text, _ = xml_gen.generate(cbuild.REPO, cbuild.config_include())
+    except cfun.GenError as e:
+        raise GenError(str(e))
+    write_if_changed(os.path.join(LEAN, "AwsVerif", "Gen", "XmlConsts.lean"), text)
+
 
 ID = "C12"
 LEAN_MODULES = ["AwsVerif.Props.C12"]
@@ -21,7 +35,9 @@ COMPONENT = "xml"
 P_DIFF_CONCRETE = False   # malformed input: verdict differences are conformance; the oracle decides violations
 HARNESS = dict(name="xml", flavour="asan")
 TIMEOUT = 900
-TRUSTED = ["hand model lean/AwsVerif/Model/Xml.lean (tied by this correspondence run only)",
+TRUSTED = ["hand model lean/AwsVerif/Model/Xml.lean (tied by this correspondence run; its limits, buffer and list capacities, "
+           "delimiter sets and guards additionally by Gen/XmlConsts.lean, regenerated from xml_parser.c on every run)",
+           "translator gen/xml_gen.py (+ gen/cfun.py): compiled sizeof probe, source-text patterns, clang AST of cut-out guards",
            "props/c12.py render / parse_dialect / expected (reference reader of the dialect, Python)"]
 ASSUMPTIONS = ["documents are at most SIZE_MAX/2 bytes (explicit hypothesis of the theorems: aws_byte_cursor_advance refuses larger steps)",
                "callbacks propagate the return code of aws_xml_node_traverse / aws_xml_node_as_body and call at most one of them, once",
@@ -715,6 +731,14 @@ def distribution(cases, c_out):
             elif l.startswith("W nulldoc"):
                 d["nulldoc_runs"] += 1
     return d
+
+
+def extra_stages(ctx):
+    """make a failure of the Lean stage visible also when the oracle has already found concrete violations
+    (core.finish only turns it into a VIOLATION line of its own when there is none)"""
+    if ctx.lean_ok is False and ctx.violations:
+        first = (ctx.lean_err or "lean stage failed").strip().splitlines()[0]
+        print("  lean stage: proof obligations no longer check against the current source: " + first[:300])
 
 
 MANIFEST = dict(
